@@ -318,3 +318,24 @@ def secp_unreduced_sec1():
     x, y = pts[0]
     xt, yt = tiny_y[0]
     return out
+
+
+def text_forms(b: bytes):
+    """the byte string `b` as other tools WRITE it (what a user pastes): hex in both cases, with a line end, a 0x prefix, separators;
+    base64; decimal; binary digits.  None of these is `b`; an entry point that sniffs "this looks like hex" decodes them.
+    Yields (description, bytes)."""
+    import base64
+    h = b.hex()
+    yield "hex", h.encode()
+    yield "HEX", h.upper().encode()
+    yield "hex + LF", h.encode() + b"\n"
+    yield "hex + CRLF", h.encode() + b"\r\n"
+    yield "0x hex", b"0x" + h.encode()
+    yield "hex, space separated", " ".join(h[i:i + 2] for i in range(0, len(h), 2)).encode()
+    yield "hex, colon separated", ":".join(h[i:i + 2] for i in range(0, len(h), 2)).encode()
+    yield "base64", base64.b64encode(b)
+    yield "base64 + LF", base64.b64encode(b) + b"\n"
+    yield "base64url", base64.urlsafe_b64encode(b).rstrip(b"=")
+    yield "decimal", str(int.from_bytes(b, "big")).encode()
+    yield "binary digits", bin(int.from_bytes(b, "big"))[2:].zfill(8 * len(b)).encode()
+    yield "python bytes literal", repr(b).encode()
